@@ -232,7 +232,7 @@ func execCall(c Call, reused map[string]*ttlv.Encoder) (digest string, doc []byt
 					// an Encoder is a small value that is copied around: Clear through any copy clears them all (every second time
 					// it is called through a copy, the message is then written through the original)
 					clears++
-					if clears%2 == 0 {
+					if clears%2 == 1 {
 						cp := *pe
 						cp.Clear()
 					} else {
